@@ -409,7 +409,7 @@ def _generic_run(self, cspec, argvals):
         if cspec['style'] == 'args':
             val = argvals[inp['_arg']]
         elif cspec['style'] == 'index':
-            val = self.input_tasks[idx].value
+            val = self.input_tasks[idx + (1 if cspec.get('_opt_first') else 0)].value
         else:
             t = self.input_tasks[inp['_lookup']]
             val = t.value
@@ -681,10 +681,17 @@ def build_classes(world):
                     ref = A.fullname(inp.get('rel') or None, tgt['slug'])
                 else:
                     ref = A.fullname(inp.get('rel') or None, tgt['name'])
-            if inp.get('optional'):
+            if inp.get('optional') == 'absent' and c['style'] == 'index' and V.pick('optfirst', c['slug'], 180):
+                # an optional input that the chain does not have, declared in front of the regular inputs: it keeps its position in
+                # the documented order ("order is given by order in Meta"), the inputs after it are read at index + 1
+                opt_first = InputTaskParameter(ref, default=None)
+                c['_opt_first'] = True
+            elif inp.get('optional'):
                 par_list.append(InputTaskParameter(ref, default=None))
             else:
                 in_list.append(ref)
+        if c.get('_opt_first'):
+            in_list.insert(0, opt_first)
         meta['input_tasks'] = in_list
         meta['parameters'] = par_list
         if c.get('meta_name'):
